@@ -366,9 +366,10 @@ pub trait Subject: BitVector + Clone + Sized + 'static {
     /// convert to type `ty` and back (None when the forward conversion reports an error or, for
     /// `by_val`, bva has no by-value form for that pair)
     fn roundtrip_via(&self, ty: usize, by_val: bool) -> Option<Result<Self, String>>;
-    /// Self::try_from(&ones(len) of type `ty`): Some(Ok((len, capacity))) / Some(Err) ; None when
-    /// type `ty` cannot hold `len` bits itself
-    fn try_from_ones_of(ty: usize, len: usize) -> Option<Result<(usize, usize), String>>;
+    /// Self::try_from(&v) for a vector v of type `ty` and length `len` (pattern 0: all zeros, 1: all ones, 2: only
+    /// bit 0 set, 3: only the top bit set): Some(Ok((len, capacity))) / Some(Err) ; None when type `ty` cannot hold
+    /// `len` bits itself
+    fn try_from_longer(ty: usize, len: usize, pattern: usize) -> Option<Result<(usize, usize), String>>;
 }
 
 macro_rules! uint_arms {
@@ -449,12 +450,18 @@ macro_rules! common_subject_items {
         fn bv_bin(l: &Bv, op: Op, form: Form, y: &Self) -> Bv {
             <Bv as Pair<$T>>::bin(l, op, form, y)
         }
-        fn try_from_ones_of(ty: usize, len: usize) -> Option<Result<(usize, usize), String>> {
+        fn try_from_longer(ty: usize, len: usize, pattern: usize) -> Option<Result<(usize, usize), String>> {
             $crate::with_type!(ty, B, {
                 if B::FIXED_CAP.map_or(false, |c| len > c) {
                     return None;
                 }
-                let b = B::ones(len);
+                let mut b = if pattern % 4 == 1 { B::ones(len) } else { B::zeros(len) };
+                if pattern % 4 == 2 && len > 0 {
+                    b.set(0, Bit::One);
+                }
+                if pattern % 4 == 3 && len > 0 {
+                    b.set(len - 1, Bit::One);
+                }
                 Some(<B as Pair<$T>>::conv_ref(&b).map(|v| (v.len(), v.capacity())))
             })
         }
